@@ -11,6 +11,15 @@ from vsc.model.expr_fieldref_model import ExprFieldRefModel
 from vsc.model.expr_indexed_field_ref_model import ExprIndexedFieldRefModel
 from vsc.model.value_scalar import ValueScalar
 
+class ForeachElemOutOfRange(Exception):
+    """Reference to an element beyond the largest size a random-size list can take"""
+    
+    def __init__(self, arr, idx):
+        super().__init__("element %d of %s is beyond its maximum size" % (idx, arr.name))
+        self.arr = arr
+        self.idx = idx
+
+
 class ForeachRefExpander(ModelVisitor):
     """Expand index-variable references in a foreach constraint"""
     
@@ -99,7 +108,13 @@ class ForeachRefExpander(ModelVisitor):
             # Check to see whether this includes an index reference
             s.rhs.accept(self)
             
-            self._field = base.field_l[int(s.rhs.val())]
+            idx = int(s.rhs.val())
+            if (idx >= len(base.field_l) 
+                and getattr(base, "is_rand_sz", False) and base.size.is_used_rand):
+                # The elements of a random-size list are allocated up to
+                # the largest size it can take. This one can never exist
+                raise ForeachElemOutOfRange(base, idx)
+            self._field = base.field_l[idx]
             
         # Propagate the _field up, but not the _expr
         self._expr = None
